@@ -36,27 +36,25 @@ USED = (
     "views of one table in another order, the same object for two arguments, pass-through projections, a fitted model keeping a view of "
     "the caller's data), degenerate geometry (zero-extent regions, all-zero coordinates, zero weights on the border, zero-length "
     "profiles), zero-stride and big-endian arrays, one public call's output fed into another, name collisions, lazy results consumed "
-    "after re-configuration, eleven or more coordinate arrays, unstable sorts of ties"
+    "after re-configuration, eleven or more coordinate arrays, unstable sorts of ties, DEFAULT arguments changed on one path, extremes of "
+    "parameter domains (k = n, balancing = 1, degree 0, Poisson -1, one window / one point per block), broadcastable query shapes, 2-D "
+    "queries that are grid-like only on the border, block totals of exactly zero, dask-backed grids, drifting non-meshgrids, repeated "
+    "extra-coordinate values, negative zero, scorer objects, shared dask keys, non-seekable file objects"
 )
 
 IDEAS = (
-    "calls that rely on DEFAULTS (a default argument value, a default taken from a class attribute, a default computed from other "
-    "arguments) changed for one path only - a caller that spells every argument out never notices; the EXTREMES of a documented "
-    "parameter domain (k = 1 and k = number of points, n_splits = 2, balancing = 1, test_size that leaves one block, degree 0, Poisson "
-    "ratio exactly -1 or 1, mindist 0, damping at 1e-8 / 1e2, size = 1 or 2, shape (1, 1), a single window size); THREE OR MORE data "
-    "components or weights arrays where the code was written with one or two in mind; DEEP NESTING (a Chain inside a Vector inside a "
-    "Chain, three levels, nested parameter names step__param through set_params / get_params(deep=True)); the TYPE, DTYPE and "
-    "OWNERSHIP of what is RETURNED (tuple vs list vs array, Python float vs 0-d array, bool mask dtype, integer label dtype, returned "
-    "components of one call sharing memory with each other); ITERATION PROTOCOLS (split() generators partially consumed, the same "
-    "cross-validator object split twice, a generator returned where a list is documented); EXCEPTIONS RAISED INSIDE USER CALLBACKS (a "
-    "reduction, projection or scorer that raises for some block / point) leaving an object half-updated or being swallowed; text-format "
-    "variety for file readers (CRLF line endings, tabs, trailing blank lines, a byte-order mark, Fortran 'D' exponents, '+' signs, "
-    "'nan' / 'inf' tokens, numbers without leading zero); FLOAT KEYS (-0.0 vs 0.0, values that differ by one ulp used as dictionary "
-    "keys, np.unique on floats); behaviour that depends on the ORDER OF THE POINTS only through ties (two points at the same distance, "
-    "two blocks with the same population, two candidates with the same score) where the statement fixes the outcome; a value computed "
-    "BEFORE validation and used after it (or validated in one representation and used in another: list vs array, before vs after "
-    "raveling); properties that must hold for EVERY element of an output but are only true on average (e.g. balanced on the whole but "
-    "one fold empty); off-by-one in a DOCUMENTED count (number of nodes, of windows, of folds, of returned arrays)"
+    "FIRST list for yourself the separate CLAUSES of the statement (each 'and ...', each item of the quantifier) and tick off which ones "
+    "the earlier changes listed below already violate; aim at a clause or quantifier item NOBODY has touched yet, at a code site nobody "
+    "has touched yet. Further kinds nobody has used: a helper shared by several public functions changed so that only ONE caller's use "
+    "of it breaks; a condition inverted only for an uncommon but documented option value; an error path that now returns a value (or a "
+    "value path that now raises) for inputs the quantifier explicitly includes; an intermediate rounded / cast to a narrower type "
+    "(float32, int) that matters only beyond a magnitude; a tolerance made relative to the wrong quantity; a comparison of floats for "
+    "equality where the statement allows round-off (or a tolerance where it demands exactness); results that are right but returned in "
+    "another documented ORDER; an index computed with the wrong axis length that only matters for non-square shapes with a particular "
+    "orientation (more rows than columns vs the reverse); a loop that stops one iteration early when a count is even / odd / prime; "
+    "state shared between two INSTANCES of the same class (class attribute mutated in place); a mutable default argument; a closure "
+    "created in a loop; a `while` / retry loop that gives up silently; metadata (names, attrs, dims order) right for the first output "
+    "variable only; sign conventions (south-to-north vs north-to-south, west-to-east) assumed but not checked"
 )
 
 
